@@ -66,6 +66,13 @@ ApportionOK(w, n, out) ==
   /\ DOMAIN out = DOMAIN w
   /\ SumFn(out, DOMAIN out) = n
   /\ \A i \in DOMAIN w : Lo(w, n, i) <= out[i] /\ out[i] <= Hi(w, n, i)        \* rounding error below 1, zero stays zero
+\* what C11 itself promises for a group: a rounding error that does not grow with n. Floating point may turn an exact
+\* integer expectation k into k - 1e-16 (floor k-1, fractional part ~1), so a cell may be off by one whole record.
+ApportionNear(w, n, out) ==
+  /\ DOMAIN out = DOMAIN w
+  /\ SumFn(out, DOMAIN out) = n
+  /\ \A i \in DOMAIN w : /\ Lo(w, n, i) - 1 <= out[i] /\ out[i] <= Hi(w, n, i) + 1
+                         /\ w[i] = 0 => out[i] = 0
 SampleOK(w, n, out) ==
   /\ DOMAIN out = DOMAIN w /\ SumFn(out, DOMAIN out) = n
   /\ \A i \in DOMAIN w : w[i] = 0 => out[i] = 0
